@@ -89,6 +89,15 @@ def attach (h : Heap) (p c : Nat) : Heap :=
     upd h1 c fun r => { r with rc := r.rc + 1, parent := some p }
   else setFault h
 
+/-- `p.insert(j, e)` : only when `j < children.length()`; `e->parent = p`, `children.insert(j, e)` -/
+def insertAt (h : Heap) (p j e : Nat) : Heap :=
+  if j < (h.node p).kids.length then
+    if p < h.next && e < h.next && (h.node p).live && (h.node e).live then
+      let h1 := upd h p fun r => { r with kids := r.kids.insertIdx j e }
+      upd h1 e fun r => { r with rc := r.rc + 1, parent := some p }
+    else setFault h
+  else h
+
 /-- `p.remove(j)` : `orphan(j)`, `children.remove(j)` (which releases the handle) -/
 def detachAt (h : Heap) (p j : Nat) : Heap :=
   match (h.node p).kids[j]? with
@@ -119,6 +128,7 @@ def clearKids (h : Heap) (p : Nat) : Heap :=
 inductive Op where
   | new (v : Nat)            -- `v = Xml("e")`
   | append (v w : Nat)       -- `v << w`
+  | insert (v w j : Nat)     -- `v.insert(j, w)` (the code does nothing unless `j < numChildren`)
   | remove (v j : Nat)       -- `v.remove(j mod numChildren)`
   | removeE (v w : Nat)      -- `v.remove(w)` (`remove(const Xml&)`)
   | clear (v : Nat)          -- `v.clear()`
@@ -132,6 +142,9 @@ def step (h : Heap) : Op → Heap
   | .new v => let (h1, n) := alloc h; setVar h1 v (some n)
   | .append v w => match h.var v, h.var w with
     | some p, some c => attach h p c
+    | _, _ => h
+  | .insert v w j => match h.var v, h.var w with
+    | some p, some c => insertAt h p j c
     | _, _ => h
   | .remove v j => match h.var v with
     | some p => if (h.node p).kids.length = 0 then h else detachAt h p (j % (h.node p).kids.length)
